@@ -727,6 +727,25 @@ func TestVerifC10(t *testing.T) {
 			}
 			c.one(s, s.strm[:pos], "truncate", pos, 3, true)
 		}
+		// directed: a bit above bit 31 of the db CRC varint (protobuf drops it when decoding uint32)
+		{
+			crc := c10CRC(s.db)
+			if crc >= 1<<28 {
+				var vb []byte
+				for v := uint64(crc); ; v >>= 7 {
+					if v < 0x80 {
+						vb = append(vb, byte(v))
+						break
+					}
+					vb = append(vb, byte(v)|0x80)
+				}
+				if i := bytes.Index(s.hb, vb); i >= 0 && len(vb) == 5 {
+					m := append([]byte(nil), s.strm...)
+					m[4+i+4] ^= 0x10
+					c.one(s, m, "flip", 4+i+4, 3, true)
+				}
+			}
+		}
 		// extensions
 		for _, n := range []int{1, 2, 17} {
 			c.one(s, append(append([]byte(nil), s.strm...), r.Bytes(n)...), "extend", len(s.strm), 3, true)
